@@ -14,7 +14,7 @@
     C08: "from that moment no object stored in the same or an older block is
     returned or reported present, while objects in newer blocks are unaffected". *)
 From Coq Require Import List ZArith Bool Lia.
-From BBS Require Import Common.Sx Store.Quarantine Store.QuarantineProofs Run.R08Q Run.R08QProofs.
+From BBS Require Import Common.Sx Store.Quarantine Store.QuarantineProofs Store.CasMax Run.R08Q Run.R08QProofs.
 Import ListNotations.
 Open Scope Z_scope.
 
@@ -86,6 +86,31 @@ Theorem mon08Q_silent_on_model : forall inp,
   wfq (inp_cfg inp) -> mon08Q inp (run08Q inp) = [].
 Proof. exact mon08Q_silent_on_model_all. Qed.
 Print Assumptions mon08Q_silent_on_model.
+
+(** The model's callback step "boundary := max boundary target" abstracts the
+    compare-and-swap loop of increaseTotalBlocksToBeReleased.  At the granularity
+    of its Load / CompareAndSwap operations (Store/CasMax.v), for ANY number of
+    concurrent calls and EVERY interleaving [es] (spawn a call / one atomic
+    operation of call i): the variable never decreases, stays within the largest
+    value asked for, equals the start value plus the amounts returned (what the
+    error logger reports), and a call that has returned has its value in place
+    for ever. *)
+Theorem cas_loop_is_atomic_maximum : forall v0 es,
+  let s := crun v0 es in
+  v0 <= c_v s <= max_new v0 (c_ths s)
+  /\ c_v s = v0 + sum_ret (c_ths s)
+  /\ (forall i t r, nth_error (c_ths s) i = Some t -> c_pc t = CRet r ->
+        0 <= r /\ forall es', c_new t <= c_v (fold_left cstep es' s))
+  /\ (forall es', c_v s <= c_v (fold_left cstep es' s)).
+Proof. exact cas_loop_is_atomic_maximum_all. Qed.
+Print Assumptions cas_loop_is_atomic_maximum.
+
+(** Two calls racing (5 then 3 asked for, the loser of the CompareAndSwap
+    retries): both return, the variable holds the maximum. *)
+Example ex_cas_race :
+  let s := crun 1 [CSpawn 5; CSpawn 3; CStep 0; CStep 1; CStep 1; CStep 0; CStep 0; CStep 0; CStep 1] in
+  c_v s = 5 /\ map c_pc (c_ths s) = [CRet 2; CRet 2].
+Proof. vm_compute. split; reflexivity. Qed.
 
 (** Non-vacuity.  2 old / 2 current / 1 new (mutable policy), block size 32,
     every upload fills a block; a reader is obtained on block 2 of 5, its read
